@@ -54,7 +54,8 @@ RULE = ('cases = (package of 2-6 models in per-file or cube format, 6-20 wavelen
 REQUIRED_BRANCHES = ['per_file', 'cube', 'dist_independent', 'dist_dependent', 'table_permuted', 'flag1', 'flag4',
                      'staged_convolution', 'staged_table_not_alphabetical', 'staged_first_stage_checked',
                      'apertures_tabulated_in_AU', 'apertures_tabulated_other_unit', 'cube_fitted_at_wavelengths_table_permuted',
-                     'table_reordered_after_convolution', 'own_grids_same_length', 'own_grids_mixed_lengths', 'other_model_zero_flux', 'other_model_zero_flux_indep', 'distance_unit_kpc', 'distance_unit_other',
+                     'table_reordered_after_convolution', 'stale_convolved_files_refused_then_overwritten',
+                     'write_parameters_additional_column', 'fit_output_convolved', 'package_in_mJy', 'package_in_other_flux_unit', 'own_grids_same_length', 'own_grids_mixed_lengths', 'other_model_zero_flux', 'other_model_zero_flux_indep', 'distance_unit_kpc', 'distance_unit_other',
                      'dist_dependent_unit_not_kpc', 'av0_at_lower_bound', 'av0_at_upper_bound', 'av_range_from_zero',
                      'av_range_negative', 'av_range_positive_start', 'lower_limit_band', 'upper_limit_band', 'plot_only_band',
                      'output_N_all', 'output_format_other', 'select_N1', 'select_format_other', 'listing_several_rows', 'two_sources', 'wav_increasing', 'wav_decreasing', 'unused_band']
@@ -73,6 +74,7 @@ FLOOR = 1e-3
 PAR_NAMES = ['MASS', 'TEMP', 'LUMIN', 'INCL', 'AGE']
 LETTERS = 'abcdefghijklmnopqrstuvwxyz0123456789'
 LN10 = math.log(10.)
+FLUX_TO_MJY = {'mJy': 1., 'Jy': 1000., 'uJy': 1e-3}
 from astropy import units as _u          # noqa: E402
 UNITS = {'kpc': _u.kpc, 'pc': _u.pc, 'Mpc': _u.Mpc, 'cm': _u.cm, 'lyr': _u.lyr}
 
@@ -290,7 +292,9 @@ def gen_case(rng, directed=None):
     ap_unit = directed.get('ap_unit', rng.choice(['AU', 'AU', 'pc', 'cm'])) if dep else 'AU'
     if mono:
         staged, n_first, hetero = False, nf, 'none'
-    return dict(fmt=fmt, dep=dep, mono=mono, retable=retable, ap_unit=ap_unit, names=names, wav=wav, wavs=(wavs if hetero != 'none' else None), zero=zero,
+    stale = bool(directed.get('stale', rng.random() < 0.25)) and not mono
+    additional = bool(directed.get('additional', rng.random() < 0.3))
+    return dict(stale=stale, additional=additional, output_convolved=bool(rng.random() < 0.3), flux_unit=directed.get('flux_unit', rng.choice(['mJy', 'mJy', 'Jy', 'uJy'])), fmt=fmt, dep=dep, mono=mono, retable=retable, ap_unit=ap_unit, names=names, wav=wav, wavs=(wavs if hetero != 'none' else None), zero=zero,
                 aps=aps, flux=flux, filters=filters, theta=theta,
                 drange=drange_u, dunit=dunit, n_first=n_first, step=step, cols=cols, table_order=table_order, stems=stems,
                 tab_w=tw, tab_chi=chi, av=[av_lo, av_hi], sources=sources,
@@ -337,6 +341,18 @@ DIRECTED = [
     dict(fmt='cube', dep=False, flags='flag4', nsrc=1, mono=True, special=[], av_lo=0., select_format=['N', 1]),
     dict(fmt='cube', dep=True, flags='mixed', nsrc=2, mono=True, ap_unit='pc', special=[], av_lo=0., select_format=['N', 2]),
 ]
+DIRECTED += [
+    dict(fmt='per_file', dep=False, flags='flag1', nsrc=1, stale=True, staged=False, special=[], av_lo=0., select_format=['N', 1], additional=True),
+    dict(fmt='cube', dep=True, flags='flag4', nsrc=1, stale=True, staged=True, nf=5, mono=False, special=[], av_lo=0., select_format=['N', 2], additional=True),
+    dict(fmt='per_file', dep=True, flags='mixed', nsrc=2, stale=True, staged=True, nf=4, special=[], av_lo=0., select_format=['A', 0]),
+]
+for _d in DIRECTED[:32]:
+    _d.setdefault('stale', False)
+    _d.setdefault('additional', False)
+for _d in DIRECTED[:28]:
+    _d.setdefault('flux_unit', 'mJy')
+for _d, _u in zip(DIRECTED[28:], ['Jy', 'uJy', 'Jy', 'uJy']):
+    _d.setdefault('flux_unit', _u)
 for _d in DIRECTED[:28]:
     _d.setdefault('retable', False)
     _d.setdefault('mono', False)
@@ -376,7 +392,8 @@ def build_package(case, d):
         pk.write_conf(d, case['dep'], logd_step=case['step'], version=1)
         for i, n in enumerate(names):
             fi = np.array(case['flux'][i], dtype=float)
-            sed = pk.make_sed(n, (case.get('wavs') or [case['wav']] * nm)[i], fi, fi * 0.1, case['aps'])
+            sed = pk.make_sed(n, (case.get('wavs') or [case['wav']] * nm)[i], fi, fi * 0.1, case['aps'],
+                              unit=u.Unit(case.get('flux_unit') or 'mJy'))
             if aps_q is not None:
                 sed.apertures = aps_q
             sed.write(os.path.join(d, 'seds', (case['stems'] or {}).get(n, n + '_sed') + '.fits'), overwrite=True)
@@ -385,7 +402,7 @@ def build_package(case, d):
     else:
         flux = np.array(case['flux'], dtype=float)
         pk.write_conf(d, case['dep'], logd_step=case['step'], version=2)
-        cube = pk.make_cube(names, case['wav'], flux, flux * 0.1, case['aps'])
+        cube = pk.make_cube(names, case['wav'], flux, flux * 0.1, case['aps'], unit=u.Unit(case.get('flux_unit') or 'mJy'))
         if aps_q is not None:
             cube.apertures = aps_q
         cube.write(os.path.join(d, 'flux.fits'), overwrite=True)
@@ -409,7 +426,7 @@ def own_convolved(case, filt_objs):
             order = np.argsort(nu.value)
             cache[wav_i] = (order, [f.rebin(nu[order]).response for f in filt_objs])
         order, resps = cache[wav_i]
-        flux = np.array(case['flux'][i], dtype=float)[:, order]
+        flux = np.array(case['flux'][i], dtype=float)[:, order] * FLUX_TO_MJY[case.get('flux_unit') or 'mJy']
         for j, resp in enumerate(resps):
             out[i, j, :] = np.sum(flux * resp[np.newaxis, :], axis=1)
     return out
@@ -473,6 +490,10 @@ def synthesise(case, src, own, ks):
     return fl, er, scale, logf
 
 
+class StaleAccepted(Exception):
+    pass
+
+
 def stage_case(case, nfilt):
     """the case restricted to its first `nfilt` filters (sources keep those bands only)"""
     if nfilt >= len(case['filters']):
@@ -492,8 +513,17 @@ def run_pipeline(case, d):
     [convolve first filters -> fit -> write_parameters ->] convolve the remaining filters -> fit ->
     write_parameters.  returns [(stage case, observations)], the final stage last"""
     from sedfitter.convolve import convolve_model_dir
-    params_by_name = build_package(case, d)
     nf = len(case['filters'])
+    if case.get('stale'):
+        # leftovers of an earlier run: the package was convolved when its SEDs were different (since corrected)
+        old = dict(case)
+        old['flux'] = [[[v * (1. + 0.3 * (i + 1) * w) for w, v in enumerate(row)] for row in per_ap]
+                       for i, per_ap in enumerate(case['flux'])]
+        build_package(old, d)
+        allf = [pk.make_filter(f['name'], f['cen'], f['wav'], f['resp']) for f in case['filters']]
+        with common.quiet():
+            convolve_model_dir(d, allf, memmap=False)
+    params_by_name = build_package(case, d)
     n_first = case.get('n_first', nf)
     stages = [n_first, nf] if n_first < nf else [nf]
     done = 0
@@ -503,8 +533,22 @@ def run_pipeline(case, d):
     for k, upto in enumerate(stages):
         if not case.get('mono'):
             new = [pk.make_filter(f['name'], f['cen'], f['wav'], f['resp']) for f in case['filters'][done:upto]]
-            with common.quiet():
-                convolve_model_dir(d, new, memmap=False)
+            if case.get('stale'):
+                # the files exist: the default overwrite=False must refuse; the user then asks for overwrite=True
+                try:
+                    with common.quiet():
+                        convolve_model_dir(d, new, memmap=False)
+                except Exception:
+                    pass
+                else:
+                    raise StaleAccepted('convolve_model_dir(model_dir, filters) with the default overwrite=False returned although '
+                                        'convolved/%s.fits (computed from SEDs since replaced) exist: stale fluxes are kept silently'
+                                        % ', '.join(f['name'] for f in case['filters'][done:upto]))
+                with common.quiet():
+                    convolve_model_dir(d, new, overwrite=True, memmap=False)
+            else:
+                with common.quiet():
+                    convolve_model_dir(d, new, memmap=False)
         done = upto
         if upto == nf and case.get('retable'):
             # every convolved file exists; the user re-orders parameters.fits (lookups are by name everywhere)
@@ -526,7 +570,7 @@ def run_stage(case, d, params_by_name, k):
     if case.get('mono'):
         # fitted at tabulated wavelengths: the model flux is the cube cell itself
         own = np.array([[[case['flux'][i][a][case['wav'].index(f['cen'])] for a in range(len(case['flux'][i]))]
-                         for f in case['filters']] for i in range(len(names))], dtype=float)
+                         for f in case['filters']] for i in range(len(names))], dtype=float) * FLUX_TO_MJY[case.get('flux_unit') or 'mJy']
     else:
         filt_objs = [pk.make_filter(f['name'], f['cen'], f['wav'], f['resp']) for f in case['filters']]
         own = own_convolved(case, filt_objs)
@@ -553,8 +597,14 @@ def run_stage(case, d, params_by_name, k):
         fit(datafile, ([f['cen'] * u.micron for f in case['filters']] if case.get('mono') else [f['name'] for f in case['filters']]),
             np.array(case['theta']) * u.arcsec, d, out,
             n_data_min=case['n_data_min'], extinction_law=ext, av_range=tuple(case['av']),
-            distance_range=drange_quantity(case), output_format=tuple(case.get('output_format') or ('N', len(names))))
-        write_parameters(out, txt, select_format=tuple(case.get('select_format') or ('N', 1)))
+            distance_range=drange_quantity(case), output_format=tuple(case.get('output_format') or ('N', len(names))),
+            output_convolved=bool(case.get('output_convolved')))
+        if case.get('additional'):
+            # positional output file, documented `additional` option: one more column, looked up by model name
+            write_parameters(out, txt, tuple(case.get('select_format') or ('N', 1)),
+                             additional={'EXTRA': {n: extra_value(case, n) for n in names}})
+        else:
+            write_parameters(out, txt, select_format=tuple(case.get('select_format') or ('N', 1)))
     records = []
     fin = FitInfoFile(out, 'r')
     for info in fin:
@@ -564,6 +614,11 @@ def run_stage(case, d, params_by_name, k):
     lines = open(txt).read().splitlines()
     return dict(params=params_by_name, own=own, file_flux=file_flux, ks=ks, planted=planted, records=records,
                 text=lines)
+
+
+def extra_value(case, name):
+    """value of the `additional` parameter column for a model"""
+    return 1000. + 7. * case['names'].index(name)
 
 
 def parse_text(lines):
@@ -738,7 +793,8 @@ def check_stage(case, run, use_driver=True):
                 % (case['filters'][j]['name'], names[i], a, float(run['file_flux'][i, j, a]), float(run['own'][i, j, a])),
                 0, 0, True)
     header, blocks = parse_text(run['text'])
-    expect_cols = ['fit_id', 'model_name', 'chi2', 'av', 'scale'] + [c.lower() for c in case['cols']]
+    expect_cols = ['fit_id', 'model_name', 'chi2', 'av', 'scale'] + [c.lower() for c in case['cols']] + \
+                  (['extra'] if case.get('additional') else [])
     if sorted(header) != sorted(expect_cols) or header[:5] != expect_cols[:5]:
         # the column titles are layout; without them the numbers cannot be attributed, which is not a C08 verdict
         return False, 'write_parameters header %r; expected the titles %r (layout only)' % (header, expect_cols), 0, 0, None
@@ -799,6 +855,8 @@ def check_stage(case, run, use_driver=True):
             if len(row) != len(header):
                 return False, '%s: listing row %r has %d columns, header %d (layout only)' % (what, row, len(row), len(header)), n_ok, n_deg, None
             own_row = dict(zip(case['cols'], run['params'][rec['name'][i]]))
+            if case.get('additional'):
+                own_row['EXTRA'] = extra_value(case, rec['name'][i])
             exp_row = [str(i + 1), rec['name'][i]] + ['%10.3e' % v for v in own_row.values()]
             if row[0] != str(i + 1) or row[1] != rec['name'][i]:
                 return (False, '%s: listing row %d is %r; the fit file ranks %s at position %d'
@@ -884,6 +942,13 @@ def run_case(case):
             branches.add('select_N1' if sf == ['N', 1] else 'select_format_other')
             if any(len(b[3]) > 1 for b in parse_text(run[-1][1]['text'])[1]):
                 branches.add('listing_several_rows')
+            branches.add('package_in_mJy' if (case.get('flux_unit') or 'mJy') == 'mJy' else 'package_in_other_flux_unit')
+            if case.get('stale'):
+                branches.add('stale_convolved_files_refused_then_overwritten')
+            if case.get('additional'):
+                branches.add('write_parameters_additional_column')
+            if case.get('output_convolved'):
+                branches.add('fit_output_convolved')
             if case.get('mono'):
                 branches.add('cube_fitted_at_wavelengths_table_permuted')
             if case.get('retable'):
